@@ -24,7 +24,7 @@
 //!  `r <dg> a=<addr> m=<none|flip:<bit>|trunc:<len>|ext:<hex>|xor:<off>:<hex>|hdr:<dg2>>`
 //!        deliver to `decode_packet` => `<ok:new|ok:old|err:Code|panic> [h=<plain>/<proto> p=<hex>] T=<now> S=<n>:<hash>,.. L=<last use>,.. G=<hash> [C<i>=<summary>].. [GS=<store>]`
 //!  `h <dg> a=<addr> m=…`   deliver to `handle_rx_packet` => `<deliver|consumed|fail:Code|panic> [h= p=] T= S= L= G= [C..] [GS=] [R=<reply>;..]`
-//!        reply = `<addr>|<key|->|<plain>/<proto>|<payload hex>`, key = `k<ek number>` / `g<fab no>:<epoch>` / `?`
+//!        reply = `<addr>|<key|->|<plain>/<proto>|<payload hex>`, key = `k<ek number>` / `g<fab no>.<epoch>` / `?`
 use crate::proto::{hex, parse_cases, unhex, Case, Out};
 use crate::rng::Rng;
 use crate::Args;
@@ -352,7 +352,7 @@ impl<'a, C: Crypto> World<'a, C> {
                 Ok((op, sid)) => {
                     nums.push(k);
                     sids.push(sid);
-                    self.keys.push((format!("g{}:{}", no, k), op, f.node));
+                    self.keys.push((format!("g{}.{}", no, k), op, f.node));
                 }
                 Err(e) => return format!("err {}", err_name(&e)),
             }
